@@ -449,6 +449,7 @@ func (f *filterConn) SetWriteDeadline(t time.Time) error { return f.sock.SetWrit
 type recFactory struct {
 	mu    sync.Mutex
 	start time.Time
+	until time.Duration // lines later than this are not recorded (the relayed socket is closed by then)
 	lines []string
 }
 
@@ -461,7 +462,7 @@ func (f *recFactory) NewLogger(scope string) logging.LeveledLogger { return &rec
 
 func (l *recLogger) rec(level, msg string) {
 	l.f.mu.Lock()
-	if len(l.f.lines) < 64 {
+	if len(l.f.lines) < 64 && time.Since(l.f.start) < l.f.until {
 		l.f.lines = append(l.f.lines, fmt.Sprintf("%.1fs %s %s: %s", time.Since(l.f.start).Seconds(), level, l.scope, msg))
 	}
 	l.f.mu.Unlock()
@@ -562,7 +563,9 @@ func runOnce(t *testing.T, sc scenario) (res *runResult) { //nolint:gocognit,cyc
 			return
 		}
 		fc := newFilter(csock, w.SrvAddr, start, sc.Devs)
-		lf := &recFactory{start: start}
+		// the property speaks about the time the relayed socket is open: a periodic transaction that is still in
+		// flight when the application closes the socket loses its allocation to the Refresh(0) and may fail
+		lf := &recFactory{start: start, until: closeAt}
 		cl, err := turn.NewClient(&turn.ClientConfig{
 			STUNServerAddr: w.SrvAddr.String(), TURNServerAddr: w.SrvAddr.String(),
 			Username: "u1", Password: vtx.Users["u1"], Realm: vtx.Realm,
@@ -1127,11 +1130,12 @@ func TestC14Faults(t *testing.T) {
 // TestC14Pairs: D = 2 over 75 minutes.
 //
 //	(a) both deviations on the same transaction: for every configuration x pattern x transaction x first
-//	    deviation of the full alphabet, each response deviation on the transmission that gets through
-//	    (e.g. drop 5 requests, then the answer to the 6th: only the 7th and last transmission succeeds);
+//	    deviation of the full alphabet (quick: drop 5 requests | drop the answer | delay the answer), each response
+//	    deviation on the transmission that gets through (e.g. drop 5 requests, then the answer to the 6th: only
+//	    the 7th and last transmission succeeds);
 //	(b) thorough only: deviations on two different transactions, every unordered pair of transactions of the
 //	    run x the extreme alphabet {drop 1, drop 6, drop/duplicate/delay response} on each, for
-//	    3 configurations x {idle, both10, burst}. The second transaction ranges over the transactions of the
+//	    3 configurations x {idle, both10}. The second transaction ranges over the transactions of the
 //	    run WITH the first deviation, not of the fault-free run.
 func TestC14Pairs(t *testing.T) { //nolint:gocognit,cyclop
 	runtime.GOMAXPROCS(1)
@@ -1148,7 +1152,7 @@ func TestC14Pairs(t *testing.T) { //nolint:gocognit,cyclop
 	r.Bound = 2
 	cross := map[string]bool{}
 	if rep.Thorough() {
-		cross = map[string]bool{"idle": true, "both10": true, "burst": true}
+		cross = map[string]bool{"idle": true, "both10": true}
 	}
 	isExtreme := func(d deviation) bool { return d.Kind != "dropreq" || d.K == 1 || d.K == 6 }
 	for _, cb := range combos() {
@@ -1159,6 +1163,9 @@ func TestC14Pairs(t *testing.T) { //nolint:gocognit,cyclop
 		for _, d1 := range allDeviations(b.Txs, fullAlphabet) {
 			if !mine(key + d1.String()) {
 				continue
+			}
+			if !rep.Thorough() && d1.Kind == "dropreq" && d1.K != 5 {
+				continue // quick: of the request losses only the longest that leaves room for a second deviation
 			}
 			seconds := sameTxSeconds(d1)
 			if cross[cb.pat] && isExtreme(d1) {
